@@ -2,5 +2,7 @@
 EXTENDS SessionLogin
 MCThresholds == {0, 1, 2}          \* concretised by the harness as a rotation over {0, 1, 64, 256, 2^31-1}
 MCPlugIds == {1, 2}
-MCDiscKinds == {"json", "raw", "outdated_client", "outdated_server"}
+\* reason shapes: a JSON object with text, non-JSON text, the two "Outdated" texts, and JSON that is not an object
+\* with text (bare string, array, null, number, object without text): all must surface as a login failure
+MCDiscKinds == {"json", "raw", "outdated_client", "outdated_server", "jsonstr", "jsonarr", "jsonnull", "jsonnum", "jsonnotext"}
 =============================================================================
